@@ -309,17 +309,17 @@ def task_c14(kind, op):
         if op != "assign":
             run.oblige("C14|%s/vetoed-write-changes-nothing" % label, implies(vetoed, z3.And(val1 == old, never(HC))))
             if nserial:
-                run.oblige("C14|%s/vetoed-write-publishes-nothing" % label, z3.Not(vetoed))
+                run.oblige("C14,C01|%s/vetoed-write-publishes-nothing" % label, z3.Not(vetoed))
         if nserial == 0:
-            run.oblige("C14|%s/unvetoed-write-publishes-exactly-one-update" % label, vetoed)
+            run.oblige("C14,C01|%s/unvetoed-write-publishes-exactly-one-update" % label, vetoed)
             return
         if kind != "switch":
             run.oblige("C14|%s/takes-the-value" % label, val1 == reqt)
         else:
             # a switch takes the value the rule allows (C09); the event contract is about the value actually stored
             reqt = val1
-        run.oblige("C14|%s/publishes-exactly-one-update" % label, z3.BoolVal(nserial == 1))
-        run.oblige("C14|%s/the-published-update-carries-the-new-value" % label, published[0][1] == reqt)
+        run.oblige("C14,C01|%s/publishes-exactly-one-update" % label, z3.BoolVal(nserial == 1))
+        run.oblige("C14,C01|%s/the-published-update-carries-the-new-value" % label, published[0][1] == reqt)
         changed = old != reqt
         run.oblige("C14|%s/Change-handlers-invoked-exactly-once-iff-the-value-changed" % label,
                    z3.And(implies(changed, once(HC)), implies(z3.Not(changed), never(HC))))
@@ -330,7 +330,7 @@ def task_c14(kind, op):
                                                                                    z3.Select(HC["element_ok"], j))))))
         # order: Write handlers, then store+publication, then Change handlers
         ser = pos(lambda t: t[0] == "serialise")
-        run.oblige("C14|%s/publication-recorded-in-the-trace" % label, z3.BoolVal(len(ser) == nserial))
+        run.oblige("C14,C01|%s/publication-recorded-in-the-trace" % label, z3.BoolVal(len(ser) == nserial))
         wr = pos(lambda t: t[0] in ("handler", "handlers") and t[1] == "Write")
         ch = pos(lambda t: t[0] in ("handler", "handlers") and t[1] == "Change")
         order_ok = all(a < b for a in wr for b in ser) and all(a < b for a in ser for b in ch)
